@@ -24,7 +24,12 @@ Reading of the text made explicit here:
 * a request the `ServeMux` answers itself (canonicalising redirect, 404) calls
   no registered handler and is allowed.
 * "a JSON content type": `Content-Type: application/json`, or no body and no
-  content type at all (nothing to type).
+  content type at all (nothing to type).  "No body" is a DECLARED absence of a
+  body: `ContentLength = 0`.  A request of unknown length (`ContentLength = -1`:
+  chunked transfer encoding, HTTP/2 without content-length) announces a body the
+  server cannot know to be empty before reading it, so it counts as having a
+  body, even if the chunked body turns out to be empty: without
+  `application/json` it must not enter a state-changing handler.
 Core Lean only.
 -/
 import AGH.Model.Http
@@ -66,7 +71,8 @@ def specPublicPath (p : Bytes) : Bool :=
 /-- "carrying a valid unexpired session cookie or correct basic credentials". -/
 def specAuthenticated (r : Req) : Bool := r.cookie == .valid || r.basic == .right
 
-/-- "a JSON content type" (or nothing to type). -/
+/-- "a JSON content type" (or nothing to type: a declared empty body,
+`ContentLength = 0`, and no content type; an unknown length is not "empty"). -/
 def jsonOrEmpty (r : Req) : Bool :=
   r.ctype == sAppJSON || (r.contentLength == 0 && r.ctype == [])
 
